@@ -52,3 +52,13 @@ Theorem C13_influence_decays :
      vnorm2 (trail_kernel (fun x => x) cutoff u r) * vnorm2 (vcross u r) <= 4).
 Proof. split; [exact seg_kernel_decay | exact trail_kernel_decay]. Qed.
 Print Assumptions C13_influence_decays.
+(* the hypotheses are satisfiable: a filament along x seen from one unit to its side; a unit segment seen from ten units away *)
+Example C13_decay_nonvacuous :
+  (vdot (V3 1 0 0 : v3 R) (V3 1 0 0) = 1 /\ 0 <= 1e-13 /\ 1e-13 < trail_denom (V3 1 0 0 : v3 R) (V3 0 1 0)) /\
+  (0 < vnorm (V3 10 0 0 : v3 R) /\ 0 <= vdot (V3 10 0 0 : v3 R) (V3 10 1 0)).
+Proof.
+  unfold trail_denom, vnorm, vnorm2, vdot; cbn [vx vy vz]; rnum.
+  replace (0 * 0 + 1 * 1 + 0 * 0) with 1 by ring. rewrite sqrt_1.
+  replace (10 * 10 + 0 * 0 + 0 * 0) with (10 * 10) by ring. rewrite sqrt_square by lra.
+  repeat split; lra.
+Qed.
